@@ -165,6 +165,18 @@ def check_volume(rng):
         rng.standard_normal((n, d)) if kind == "gauss" else rng.random((n, d)) if kind == "uniform" else \
         rng.standard_normal((n, d)) + 6 * (rng.random((n, 1)) < 0.3) if kind == "bimodal" else rng.standard_t(2.5, (n, d))
     w = rng.dirichlet(np.full(n, 10 ** rng.uniform(-0.5, 1))) if rng.random() < 0.8 else None
+    if rng.random() < 0.15 and kind != "rank-deficient":
+        # one sample thousands of standard deviations away that carries 1e-9..1e-5 of the weight (a stale particle of an early
+        # iteration): its Mahalanobis distance is in the range where overflow guards act
+        kind = kind + "|outlier"
+        dirn = rng.standard_normal(d)
+        dirn /= np.linalg.norm(dirn)
+        x[0] = x.mean(0) + 10 ** rng.uniform(3.1, 5.5) * x.std(0).mean() * dirn
+        if w is None:
+            w = np.ones(n) / n
+        w = w.copy()
+        w[0] = 10 ** rng.uniform(-9, -5) * w[1:].sum()
+        w /= w.sum()
     if rng.random() < 0.2 and d > 1:
         # structurally degenerate pools (the regularised branch of the metric): a constant coordinate, a repeated coordinate,
         # or fewer than d+1 samples carrying weight
@@ -317,6 +329,8 @@ def run():
                 ck.event("volume_variation case")
                 ck.event("volume_variation under exact power-of-two rescaling of the samples", vdesc.get("pow2", 0))
                 ck.event("degenerate pools under a rigid motion (rank decision robust for both clouds)", vdesc.get("rigid", 0))
+                if "|outlier" in vdesc.get("kind", ""):
+                    ck.event("pools with one sample > 1000 standard deviations away carrying 1e-9..1e-5 of the weight" + (" (affine pair judged)" if judged else ""))
                 if "+" in vdesc.get("kind", ""):
                     ck.event("structurally degenerate pools (regularised branch) under power-of-two rescaling")
                 if judged:
